@@ -39,7 +39,7 @@ func styleOf(name string, args []condh.Arg) uint64 {
 func impl(in hv.Val) hv.Val {
 	l := hv.AsList(in)
 	switch hv.AsInt(l[0]) {
-	case 1:
+	case 1, 4:
 		return build(hv.AsStr(l[1]))
 	case 2:
 		name := hv.AsStr(l[1])
@@ -198,7 +198,126 @@ var soupToks = []string{"(", ")", "&&", "||", "!", ",", "\"", "`", "'", ";", "&"
 	"req_host_in", "default_t", "default_t()", "req_host_in(\"a\")", "req_path_in(\"/a\", true)", "\"abc\"", "`abc`", "\"a\\\"b\"", "\"\\q\"", "\"\\x4\"", "\"\\u12\"", "\"\\777\"",
 	"bfe_periodic_time_range(\"12 Z\",\"1 Z\",\"\")", "req_cip_hash_in(\"1-", "$x", "if", "func", "a-b", "é", "\xff", "\x00", "\ufeff", "0b", "08", "1_0", "'a'", "/", "/*", "req_vip_in(", "x(1,true,\"s\")"}
 
+// literals extracts the contents of the string literals of an ASCII text the way the scanner delimits them
+// (double-quoted up to the next unescaped quote / newline, raw up to the next backquote with CR removed, // comments
+// skipped); used only to build the oracle rows, extra rows are harmless.
+func literals(t string) []condh.Arg {
+	var out []condh.Arg
+	add := func(v string) { out = append(out, condh.Arg{Kind: 1, Val: v}) }
+	for i := 0; i < len(t); {
+		switch c := t[i]; {
+		case c == '"':
+			j := i + 1
+			for j < len(t) && t[j] != '"' && t[j] != '\n' {
+				if t[j] == '\\' {
+					j++
+				}
+				j++
+			}
+			if j > len(t) {
+				j = len(t)
+			}
+			add(t[i+1 : j])
+			i = j + 1
+		case c == '`':
+			j := strings.IndexByte(t[i+1:], '`')
+			if j < 0 {
+				add(strings.Replace(t[i+1:], "\r", "", -1))
+				i = len(t)
+			} else {
+				add(strings.Replace(t[i+1:i+1+j], "\r", "", -1))
+				i = i + j + 2
+			}
+		case c == '/' && i+1 < len(t) && t[i+1] == '/':
+			for i < len(t) && t[i] != '\n' {
+				i++
+			}
+		default:
+			i++
+		}
+	}
+	return out
+}
+
+func textCase(class, t string) (string, hv.Val) {
+	for i := 0; i < len(t); i++ {
+		if t[i] >= 0x80 { // outside the lexical model: checked for totality only
+			return "raw-nonascii", hv.L{hv.I(1), hv.S(t)}
+		}
+	}
+	return class, hv.L{hv.I(4), hv.S(t), condh.Oracle("ip_time_regmatch_hash_in_vip", literals(t), nil)}
+}
+
+var lexemes = []string{"(", ")", "&&", "||", "!", ",", " ", "\t", "\n", "\r\n", "// c\n", "//", "/", "&", "|", ";", "'", ".", "$", "=", "\x00", "\x7f",
+	"default_t", "default_t()", "default_t( )", "req_method_in", "req_method_in(\"GET\")", "req_method_in(`GET`)", "req_path_in(\"/a\", true)",
+	"req_path_in(\"/a\",false)", "req_path_in(\"/a\")", "req_path_in(\"/a\", \"x\")", "req_path_in(\"/a\", true, true)", "true", "false", "TRUE", "x", "a-b", "_", "-", "x1", "if", "func", "default", "go", "import", "Default",
+	"1", "0", "08", "0x", "0x1F", "1.5", "1e3", "1i", "\"abc\"", "`abc`", "\"\"", "``", "\"a\\\"b\"", "\"\\n\"", "\"\\q\"", "\"\\x4\"", "\"\\x41\"", "\"\\u12\"", "\"\\u0041\"",
+	"\"\\U00110000\"", "\"\\U0010FFFF\"", "\"\\uD800\"", "\"\\ud7ff\"", "\"\\777\"", "\"\\377\"", "\"\\400\"", "\"\\08\"", "\"\\\\\"", "\"a\nb\"", "`a\nb`", "`a\rb`", "\"", "`", "\"abc", "`abc",
+	"req_host_in(\"a.com|b.com\")", "req_host_in(\"a:80\")", "req_cip_range(\"1.1.1.1\", \"1.1.1.9\")", "req_cip_range(\"1.1.1.9\", \"1.1.1.1\")", "req_cip_hash_in(\"0-9999\")",
+	"req_cip_hash_in(\"10000\")", "req_url_regmatch(`^/s\\?w=1`)", "req_url_regmatch(\"(\")", "bfe_periodic_time_range(\"203000H\", \"204500H\", \"\")", "bfe_time_range(\"20190204203000H\", \"20190204204500H\")",
+	"unknown_prim()", "req_method_in (\"GET\")", "req_method_in//c\n(\"GET\")", "req_method_in(\"GET\",)", "req_method_in(,\"GET\")", "req_method_in(\"GET\" \"POST\")", "req_method_in(req_method_in(\"GET\"))", "req_method_in(x)", "req_method_in(1)"}
+
+func genText(r *hv.Rng) (string, hv.Val) {
+	switch r.Intn(5) {
+	case 0, 1: // lexeme soup
+		n := r.Range(0, 7)
+		var sb strings.Builder
+		for j := 0; j < n; j++ {
+			sb.WriteString(lexemes[r.Intn(len(lexemes))])
+			if r.Chance(1, 2) {
+				sb.WriteString(" ")
+			}
+		}
+		return textCase("text-soup", sb.String())
+	case 2: // well-formed expression with lexical variety
+		n := r.Range(1, 4)
+		var sb strings.Builder
+		seps := []string{" ", "", "\n", "\t", " // note\n", "\r\n"}
+		for j := 0; j < n; j++ {
+			if j > 0 {
+				sb.WriteString(seps[r.Intn(len(seps))] + []string{"&&", "||"}[r.Intn(2)] + seps[r.Intn(len(seps))])
+			}
+			for r.Chance(1, 4) {
+				sb.WriteString("!" + seps[r.Intn(2)])
+			}
+			name, args, _ := genCall(r)
+			c := condh.RenderCall(name, args, r.U64())
+			if r.Chance(1, 2) {
+				c = "req_method_in(" + []string{"\"GET\"", "`GET|POST`", "\"G\\x45T\"", "\"\\u0047ET\""}[r.Intn(4)] + ")"
+			}
+			if r.Chance(1, 4) {
+				c = "(" + seps[r.Intn(len(seps))] + c + ")"
+			}
+			sb.WriteString(c)
+		}
+		return textCase("text-expr", sb.String())
+	default: // one-byte edits of a well-formed text
+		name, args, _ := genCall(r)
+		t := []byte(condh.RenderCall(name, args, r.U64()) + []string{"", " && default_t()", " || !req_method_in(\"GET\")", " // x"}[r.Intn(4)])
+		for k := r.Range(1, 2); k > 0; k-- {
+			j := r.Intn(len(t))
+			switch r.Intn(4) {
+			case 0:
+				t = append(t[:j:j], t[j+1:]...)
+			case 1:
+				t[j] = byte(r.Intn(128))
+			case 2:
+				t[j] = "\"`\\()/,&|!\n 0-_"[r.Intn(15)]
+			default:
+				t = append(t[:j+1:j+1], t[j:]...)
+			}
+			if len(t) == 0 {
+				t = []byte("x")
+			}
+		}
+		return textCase("text-mutated", string(t))
+	}
+}
+
 func gen(r *hv.Rng, i int, tier string) (string, hv.Val) {
+	if r.Chance(1, 3) {
+		return genText(r)
+	}
 	switch k := r.Intn(20); {
 	case k < 5: // token soup
 		n := r.Range(0, 8)
